@@ -701,6 +701,98 @@ def fractional_step_family(chk):
                mismatches=len(bad), branches=br)
 
 
+def idle_hours_family(chk):
+    """Round 8: schedule look-ups of a building whose internal load is ZERO in some hours (no equipment, no lighting, no
+    occupants: an accepted schedule set). The real simulate (physics stubbed) runs on a generated model whose
+    schedules hold index-encoding tables (value 100*day type + hour + 1) for hot water, gas, cooling and heating set
+    points, and zero electricity / lighting / occupancy in the hours of a chosen set; at EVERY step, idle or not, the
+    values handed to the building are those of the true calendar's day type and hour."""
+    import sys as _sys
+    import uwg.uwg as U
+    rng = chk.rng
+    thorough = chk.tier == 'thorough'
+    bad, total, idle_steps = [], 0, 0
+    for rep in range(3 if not thorough else 12):
+        M, D = rng.choice(dates()[:360])
+        nday, dt = 3, rng.choice([300, 600, 900, 1800, 3600])
+        idle = [set(range(24)), set(range(0, 24, 2)), set([0, 1, 2, 3, 4, 5, 22, 23])][rep % 3]
+        with core.quiet():
+            model = simdriver.build_model(M, D, nday, dt)
+        st = model.simTime
+        enc = [[100 * d + h + 1 for h in range(24)] for d in range(3)]
+        for sc in model.Sch:
+            for name in ('_elec', '_light', '_occ'):
+                setattr(sc, name, [[0.0 if h in idle else 0.5 for h in range(24)] for d in range(3)])
+            sc._swh, sc._gas = [list(r) for r in enc], [list(r) for r in enc]
+            sc._cool, sc._heat = [list(r) for r in enc], [list(r) for r in enc]
+            sc._v_swh, sc._q_gas = 1, 1
+        seen = []
+
+        class _Solar(object):
+            def __init__(self, UCM, BEM, simTime, RSM, forc, geoParam, rural):
+                self._r = (rural, UCM, BEM)
+
+            def solarcalcs(self):
+                return self._r
+
+        def _urbflux(UCM, UBL, BEM, forc, geoParam, simTime, RSM):
+            it = _sys._getframe(1).f_locals['it']
+            seen.append((it, [(b.swh, b.gas, b.building.cool_setpoint_day - 273.15, b.building.heat_setpoint_night - 273.15,
+                               b.elec) for b in BEM]))
+            return UCM, UBL, BEM
+
+        saved = {k: getattr(U, k) for k in ('SolarCalcs', 'urbflux', 'psychrometrics')}
+        inst = [(model.UCM, 'UCModel'), (model.UBL, 'ublmodel'), (model.rural, 'SurfFlux'), (model.RSM, 'vdm')]
+        err = None
+        try:
+            U.SolarCalcs, U.urbflux = _Solar, _urbflux
+            U.psychrometrics = lambda *a: (0., 0., 0., 0., 0., 0.)
+            for o, name in inst:
+                setattr(o, name, lambda *a, **k: None)
+            with core.quiet():
+                try:
+                    model.simulate()
+                except Exception as e:  # noqa: BLE001
+                    err = '%s: %s' % (type(e).__name__, str(e)[:120])
+        finally:
+            for k, v in saved.items():
+                setattr(U, k, v)
+            for o, name in inst:
+                try:
+                    delattr(o, name)
+                except AttributeError:
+                    pass
+        total += 1
+        case = {'M': M, 'D': D, 'nday': nday, 'dt': dt, 'idle hours': sorted(idle)}
+        if err or len(seen) != nday * 86400 // dt:
+            bad.append((case, err or 'steps %d' % len(seen), 'a complete run of %d steps' % (nday * 86400 // dt)))
+            continue
+        t0 = doy0(M, D) * 86400
+        for it, vals in seen:
+            t = t0 + it * dt
+            if t >= YEAR:
+                break
+            tf = true_fields(t)
+            want = 100 * (tf[5] - 1) + tf[4] + 1
+            idle_steps += tf[4] in idle
+            wrong = [(i, v) for i, v in enumerate(vals) if [round(x, 6) for x in v[:4]] != [want] * 4]
+            if wrong:
+                bad.append((dict(case, it=it, true_month_day_hour_daytype=[tf[0], tf[1], tf[4], tf[5]],
+                                 idle_hour=tf[4] in idle),
+                            'building %d got swh, gas, cooling, heating set point = %s' % (wrong[0][0], list(wrong[0][1][:4])),
+                            'the table entries of day type %d hour %d: %d' % (tf[5], tf[4], want)))
+                break
+    for case, obs, exp in bad[:3]:
+        chk.violation('impl-violation', 'C04 look-ups of hot water / gas / set points in hours without internal load',
+                      case=case, observed=obs, expected=exp, how='harness/props/c04.py: idle_hours_family')
+    chk.direct('lookups-oracle(buildings with idle hours)', total, total,
+               'real simulate (physics stubbed) on a generated Singapore model whose schedules have zero electricity, '
+               'lighting and occupancy in all / every second / the night hours and index-encoding tables for hot water, '
+               'gas and both set points; 3 days from a random start, dt 300..3600: at every step, idle or not, every '
+               'building is handed the entries of the true calendar day type and hour',
+               mismatches=len(bad), branches={'steps in idle hours': idle_steps})
+
+
 def run(chk):
     chk.proof(MODULE, THEOREMS)
     if chk.tier == 'thorough':
@@ -936,6 +1028,7 @@ def run(chk):
 
     # ---- round 7: fractional hour-dividing time steps on SimParam alone ---------------------------
     fractional_step_family(chk)
+    idle_hours_family(chk)
 
     # ---- the property's own oracle on the implementation ----------------------------------------
     for b in oracle_bad[:3]:
